@@ -39,6 +39,20 @@ def check(ctx):
     muts = [s_ for s_ in F.statics if s_['mut']]
     for s_ in muts:
         ctx.fail('C20.1', '%s:%s' % (s_['span']['file'], s_['span']['line']), 'static mut %s' % s_['path'], key='C20.1|staticmut|' + s_['path'])
+    # every static that can change after start-up is one of the lazily initialised stores analysed below: a flag, counter or cache
+    # in another static is shared state with its own races (e.g. a "registered" flag raised before the registration it stands for)
+    lazy_paths = {a['path'] for a in F.adts if a['path'].split('::')[-1].startswith('Lazy')}
+    SHARED_MARKERS = ('Atomic', 'Mutex', 'RwLock', 'Once', 'Cell', 'LazyLock', 'LazyCell', 'Condvar', 'Barrier')
+    nstat = 0
+    for s_ in F.statics:
+        nstat += 1
+        ty = s_['ty']
+        if ty in lazy_paths:
+            continue
+        if any(m in ty for m in SHARED_MARKERS):
+            ctx.fail('C20.1', '%s:%s' % (s_['span']['file'], s_['span']['line']), 'static %s of type %s is shared mutable state outside the lazily initialised stores: its updates are not covered by any store\'s Once/Mutex discipline' % (
+                s_['path'].split('::')[-1], ty), key='C20.1|sharedstatic|' + s_['path'].split('::')[-1])
+    ctx.ok('C20.1', '-', '%d statics, each a lazily initialised store (Once + Mutex<Option<T>>) or immutable data' % nstat, nontrivial=nstat > 0)
     # store fields touched only inside the accessor
     lazy = [a for a in F.adts if a['path'].split('::')[-1].startswith('Lazy')]
     nfield = 0
